@@ -250,6 +250,11 @@ func runScenarioWith(sc scn, seed int64, f *fault, readTimeout time.Duration, ba
 			if f.Kind == "callback-fail" || f.Kind == "callback-fail-wrapping-exception" || f.Kind == "stall+callback-fail" {
 				return true
 			}
+			if f.Kind == "cancel+callback-error" {
+				// the context ends while the callback runs, and the callback returns an error of its own
+				cancel()
+				return true
+			}
 			fire(full)
 		}
 		return false
